@@ -48,10 +48,16 @@ def run(ctx):
               "minuterie consumes version, nvars, nvars names, ndims and then parses the time as float — the reader's "
               "own prefix", f"minuterie's header walk is {pk}: the line parsed as time is not the Header's time line "
                             f"(version, nvars, names x nvars, ndims, time)", where=loc(mi, mi.node))
-    pr = [norm(c) for c in walk_no_nested(mi.node) if isinstance(c, ast.Call) and norm(c.func) == "print" and "float(" in norm(c)]
+    menv = rules.local_env(mi.node)
+    tm = [norm(n.targets[0]) for n in walk_no_nested(mi.node) if isinstance(n, ast.Assign) and
+          isinstance(n.targets[0], ast.Name) and norm(n.value).startswith("float(") and ".readline()" in norm(n.value)]
+    pr = [norm(c) for c in walk_no_nested(mi.node) if isinstance(c, ast.Call) and norm(c.func) == "print" and
+          ("float(" in norm(c) or any(isinstance(x, ast.Name) and x.id in tm for a in c.args for x in ast.walk(a)))]
     ctx.check(len(pr) == 1, f"{P}.H-READ", mi.site, "the parsed time is what is printed", f"prints: {pr}", key="print")
-    op = [norm(c.args[0]) for c in walk_no_nested(mi.node) if isinstance(c, ast.Call) and norm(c.func) == "open"]
-    ctx.check(op == ["os.path.join(pfdir, 'Header')"], f"{P}.H-READ", mi.site, "reads <plotfile>/Header", f"opens {op}", key="open")
+    op = [rules.deep(c.args[0], menv, mi.params) for c in walk_no_nested(mi.node)
+          if isinstance(c, ast.Call) and norm(c.func) == "open"]
+    ctx.check(op == ["os.path.join(sys.argv[1], 'Header')"], f"{P}.H-READ", mi.site, "reads <plotfile>/Header",
+              f"opens {op}", key="open")
     # Menu.__init__ private walk
     mn = prog.func(ME, "Menu.__init__", P)
     g, _ = grammar.reader_grammar(prog, mn)
@@ -147,7 +153,8 @@ def run(ctx):
               where=loc(sm, pad[0]) if pad else None)
     e2 = {norm(n.targets[0]): norm(n.value) for n in walk_no_nested(sm.node) if isinstance(n, ast.Assign)}
     rows = [n for n in sm.node.body if isinstance(n, ast.For) and norm(n.iter) == "range(middle)"]
-    ok = e2.get("middle") in (f"int(len({d}) / 2)", f"len({d}) // 2") and len(rows) == 1 and \
+    mid = (e2.get("middle") or "").replace(f"len(list({d}))", f"len({d})")
+    ok = mid in (f"int(len({d}) / 2)", f"len({d}) // 2") and len(rows) == 1 and \
         e2.get("(field1, field2)") == f"(list({d})[i], list({d})[i + middle])"
     ctx.check(ok, f"{P}.PARITY-PAD", sm.site, "row i shows entries i and i + n/2: every entry exactly once",
               f"row layout is middle={e2.get('middle')}, fields={e2.get('(field1, field2)')}", key="rows")
@@ -156,9 +163,14 @@ def run(ctx):
     ctx.check(ok, f"{P}.PARITY-PAD", sm.site, "a row prints name, min, max and units of both entries", "row print changed", key="print")
     # menu(): modes
     mu = prog.func(ME, "Menu.menu", P)
-    calls = [norm(c) for c in walk_no_nested(mu.node) if isinstance(c, ast.Call) and norm(c.func).startswith("self.")]
-    ok = "self.find_min_max()" in calls and "self.show_min_max(min_max_data)" in calls and \
-        "self.show_variables(variables)" in calls and "self.show_species(species)" in calls
+    uenv = rules.local_env(mu.node)
+    def src(a):     # a call argument, or the call a single-assignment local names
+        v = uenv.get(a.id) if isinstance(a, ast.Name) else None
+        return norm(v) if isinstance(v, ast.AST) else norm(a)
+    calls = [f"{norm(c.func)}({', '.join(src(a) for a in c.args)})" for c in walk_no_nested(mu.node)
+             if isinstance(c, ast.Call) and norm(c.func).startswith("self.show")]
+    ok = "self.show_min_max(self.find_min_max())" in calls and "self.show_variables(self.variables_finder())" in calls \
+        and "self.show_species(self.species_finder())" in calls
     ctx.check(ok, f"{P}.WIRING", mu.site, "min/max data flows into the table; plain mode lists variables and species",
               f"menu() calls {calls}")
     # every field classified exactly once
